@@ -4,6 +4,7 @@ import AdaVerif.Lemmas.PathMain
 import AdaVerif.Lemmas.SimpleAbs
 import AdaVerif.Lemmas.ParseSpecial
 import AdaVerif.Lemmas.ParseBase
+import AdaVerif.Lemmas.ParseAgg
 import AdaVerif.Props.C10
 /-
 C01 — Parsing conforms to the WHATWG URL Standard for every input and base.
@@ -81,6 +82,15 @@ theorem parser_no_base_partial (idna : Idna) (input : Bytes) (hid : ∀ d, HP.Id
     (hclean : HS.bracketClean (ParseSpecial.schemeSpecial input) false (ParseSpecial.hostStart input) = true) :
     ParseSpecial.parseNoBase idna input = PS.outOf (parse idna input none) :=
   PS.parseNoBase_spec idna input hid hclean
+
+/-- **… and so does the default type**: `parse_url_impl<ada::url_aggregator>(input, nullptr)` (`Model/ParseAgg.lean`, the
+    editor-level branches of the same template; `Props/C04.parse_agrees`) leaves in its single buffer the layout - bytes
+    and all eight offsets - of the record `Spec.parse` builds, and fails exactly when the Standard's parser fails -/
+theorem aggregator_parser_no_base_partial (idna : Idna) (input : Bytes) (hid : ∀ d, HP.IdnaAt idna d)
+    (hclean : HS.bracketClean (ParseSpecial.schemeSpecial input) false (ParseSpecial.hostStart input) = true) :
+    ParseAgg.parseNoBaseA idna input = (parse idna input none).map (fun u => Agg.layout (UrlRec.toL (UR.recOf u))) := by
+  rw [PA.parseNoBaseA_eq idna input hid, PS.parseNoBase_spec idna input hid hclean]
+  cases parse idna input none <;> rfl
 
 /-- **… and for every input with a base**: `parse_url_impl<ada::url>(input, &base)` on a base object that holds a record `b`
     with the record invariants of C19 (`RecInv`, '/'-free path segments) answers exactly `Spec.parse input (some b)` - NO_SCHEME
